@@ -218,9 +218,13 @@ def make_layer(ci, spec, quantized, pe):
     a["bias"] = None      # Keras' build() leaves self.bias = None
   a["activation"] = None if spec.get("noact") else qm("act")
   a.update(spec["geom"])
-  a["convolution_op"] = lambda pe, ar, k: Tensor(
-      ("app", "convolution_op", (), tuple(pe.as_term(x) for x in ar)), None)
-  a["_jit_compiled_convolution_op"] = a["convolution_op"]
+  # the stock layer's convolution_op uses the geometry of the layer it is
+  # bound to: the stand-in records which layer that is
+  tag = spec.get("tag", "this layer")
+  a["convolution_op"] = lambda pe, ar, k, tag=tag: Tensor(
+      ("app", "convolution_op", (("bound_to", tag),),
+       tuple(pe.as_term(x) for x in ar)), None)
+  # (the class's own `_jit_compiled_convolution_op` is interpreted)
   a["compute_output_shape"] = lambda pe, ar, k: None
   a["_compute_causal_padding"] = lambda pe, ar, k: [[0, 0], [2, 0], [0, 0]]
   # the applied quantizers in the weight order of the spec
@@ -374,6 +378,49 @@ def variants():
         out.append((qual, dict(spec, nobias=True, noact=True),
                     "use_bias=False,activation=None"))
   return out
+
+
+def rule_two_grouped_layers(rep, repo):
+  """R9: two grouped QConv2D layers in one process (same strides, padding,
+  data format and group count, different dilation) each convolve with the
+  convolution op of their OWN layer object - nothing compiled for the first
+  layer is handed to the second."""
+  qual = [q for q in SPECS if q.endswith(".QConv2D")]
+  if not qual:
+    raise AnalysisError("anchor-missing QConv2D spec")
+  ci = repo.classes.get(qual[0])
+  spec = SPECS[qual[0]]
+  unit = "%s::%s.call" % (ci.module.relpath, ci.name)
+  pe = PE(repo)
+  pe.opaque_ext = True
+  pe.fork = Fork([])
+  pe.ext_overrides = {
+      "tf.python.eager.context.executing_eagerly": lambda pe, a, k: True}
+  owner, fn = ci.find_method("call")
+  outs = {}
+  try:
+    for tag, dil in (("first layer", (1, 1)), ("second layer", (2, 2))):
+      sp = dict(spec, tag=tag, geom=dict(spec["geom"], groups=2,
+                                         dilation_rate=dil))
+      o = make_layer(ci, sp, True, pe)
+      outs[tag] = pe.call_func(Func(fn, owner.module, [], "call", o, owner),
+                               [Tensor(("sym", "inputs"), (2, 8, 8, 4))], {})
+  except PyRaise as e:
+    rep.fail("R9", unit, "two-grouped-layers-raise", "raises %s" % e,
+             loc=owner.module.loc(fn))
+    return 0
+  n = 0
+  for tag, out in outs.items():
+    ops = find_apps(out.term, "convolution_op") if isinstance(
+        out, Tensor) else []
+    bound = sorted({dict(op[2]).get("bound_to") for op in ops})
+    n += 1
+    rep.check(bound == [tag], "R9", unit, "convolution-op-of-another-layer",
+              "two grouped QConv2D layers called one after the other: the "
+              "%s convolves with the convolution op bound to %s" % (
+                  tag, bound or "no layer"), loc=owner.module.loc(fn),
+              instance=tag)
+  return n
 
 
 def rule_layers(rep, repo, tier="quick"):
@@ -1067,6 +1114,8 @@ def run(rep, repo, tier):
   rep.require_instances("R7", 20)
   rule_deconv_length(rep, repo)
   rep.require_instances("R8", 400)
+  if rule_two_grouped_layers(rep, repo) < 2:
+    raise AnalysisError("instance-count two grouped layers")
   rule_dead_options(rep, repo)
   rule_pooling(rep, repo)
   rep.require_instances("R1", 50)
